@@ -21,7 +21,7 @@ theorem not_empty_prefix (g x : List Char) (hg : '=' ∉ g) : hasPrefix "empty="
   · intro _ _ _ _ _; exact fun h => hg.2.2.2.2.2.1 h.symm
 
 theorem gradleLine_rec (r : GRec) (h : WFrec r) : gradleLine (recLine r) = some (r.group ++ ':' :: r.artifact, r.ver) := by
-  obtain ⟨⟨c, t, hg, hc, hne⟩, hg1, hg2, ha1, _, hv, _, _, _, _, hlead, _, _⟩ := h
+  obtain ⟨⟨c, t, hg, hc, hne⟩, hg1, hg2, ha1, _, hv, _, _, _, _, hlead, _, _, hane⟩ := h
   -- the line is  lead ++ (p ++ '=' :: rest)  with  p = group:artifact:ver
   have hsplit : recLine r = r.lead ++ ((r.group ++ ':' :: (r.artifact ++ ':' :: r.ver)) ++ '=' :: (r.confs ++ r.trail)) := by
     simp [recLine]
@@ -44,7 +44,11 @@ theorem gradleLine_rec (r : GRec) (h : WFrec r) : gradleLine (recLine r) = some 
   have c2 : cutAt ':' (r.artifact ++ ':' :: (r.ver ++ '=' :: rest')) = some (r.artifact, r.ver ++ '=' :: rest') :=
     cutAt_key ':' _ _ ha1
   have c3 : cutAt '=' (r.ver ++ '=' :: rest') = some (r.ver, rest') := cutAt_key '=' _ _ hv
-  simp only [c1, c2, c3]
+  have hgne : r.group ≠ [] := by rw [hg]; simp
+  have c1' : cutAt ':' (r.group ++ ':' :: (r.artifact ++ ':' :: (r.ver ++ '=' :: rest')))
+      = some (r.group, r.artifact ++ ':' :: (r.ver ++ '=' :: rest')) := by
+    have := c1; simpa using this
+  simp [c1', c2, c3, hgne, hane]
 
 theorem cutAt_nil (c : Char) : cutAt c [] = none := by simp [cutAt]
 
@@ -108,7 +112,7 @@ theorem recLine_clean (r : GRec) (h : WFrec r) : cleanLine (recLine r) := by
     refine okText_append _ _ (inlineWs_ok _ hlead) (okText_append _ _ og (okText_cons _ _ (by decide)
       (okText_append _ _ oa (okText_cons _ _ (by decide) (okText_append _ _ ov (okText_cons _ _ (by decide)
         (okText_append _ _ oc (inlineWs_ok _ htrail))))))))
-  exact ⟨this.1, this.2, hlen⟩
+  exact ⟨this.1, this.2, hlen.1⟩
 
 theorem fillerLine_clean (f : Filler) (h : WFfiller f) : cleanLine (fillerLine f) := by
   cases f with
